@@ -33,11 +33,11 @@ META = {
 
 
 def run(rep):
-    matrices(rep)
-    kernels(rep)
-    lp_sites(rep)
-    witnesses(rep)
-    ordering(rep)
+    rep.run(matrices)
+    rep.run(kernels)
+    rep.run(lp_sites)
+    rep.run(witnesses)
+    rep.run(ordering)
 
 
 def matrices(rep):
@@ -296,8 +296,14 @@ def witnesses(rep):
     for r in trues:
         gs = [norm(t).replace(" ", "") for t, s in guards_of(pm, r, cs.node) if s]
         if any("res.success" in g for g in gs):
-            ok = any(g.startswith("rel_err<=") for g in gs)
+            ok = any("rel_err<=" in g for g in gs)
             rep.ob("O17.3", "DOM", cs, ok, f"return True under {gs}", "the LP flux is accepted only after its residual S v was checked", node=r)
+            # sibling discipline (the conservation-law LP re-checks np.all(m > eps)): bounds handed to a floating-point LP solver
+            # hold only up to its feasibility tolerance, so the returned flux itself must be re-checked to be strictly positive
+            okp = any("np.all(v>" in g for g in gs)
+            rep.ob("O17.3", "DOM", cs, okp, f"return True under {gs}",
+                   "the LP flux is accepted as a witness only after it was re-checked to be strictly positive (solver bounds hold only up to tolerance: "
+                   "`A >> B, A >> B` is reported consistent from the point (-1e-8, 1e-8))", node=r)
     res = origin(d, ast.Name(id="residual", ctx=ast.Load()))
     rep.ob("O17.3", "DOM", cs, norm(res) == "S @ v", res, "the residual is S v for the returned flux")
     aeq = [c for c in walk_local(cs.node) if isinstance(c, ast.Call) and call_name(c) == "linprog"]
@@ -306,8 +312,19 @@ def witnesses(rep):
         ok = norm(origin(d, kwarg(c, "A_eq"))) in ("S", "stoichiometric_matrix(crn)") and "np.zeros(n_species)" in norm(origin(d, kwarg(c, "b_eq")))
         rep.ob("O17.3", "SHAPE", cs, ok, c, "the LP encodes S v = 0", node=c)
         lo, hi, bsrc = _bounds(d, kwarg(c, "bounds"))
-        okb = bsrc is not None and "(eps, None)" in norm(bsrc)
-        rep.ob("O17.3", "SHAPE", cs, okb, bsrc if bsrc is not None else c, "every flux component is bounded below by eps (strict positivity)", node=c)
+        elt = None
+        if isinstance(bsrc, ast.ListComp):
+            elt = bsrc.elt
+        elif isinstance(bsrc, ast.BinOp) and isinstance(bsrc.left, ast.List) and bsrc.left.elts:
+            elt = bsrc.left.elts[0]
+        okb = None
+        if isinstance(elt, ast.Tuple) and len(elt.elts) == 2:
+            lo_ = elt.elts[0]
+            try:
+                okb = const(lo_) is not None and const(lo_) > 0
+            except (ValueError, TypeError):
+                okb = True if norm(lo_) == "eps" else None
+        rep.ob("O17.3", "SHAPE", cs, okb, bsrc if bsrc is not None else c, "every flux component has a strictly positive lower bound (strict positivity)", node=c)
 
 
 def ordering(rep):
@@ -331,11 +348,12 @@ MUTANTS = [
          old='        if role == "reactant":\n            S_minus[i, j] += coeff\n        elif role == "product":\n            S_plus[i, j] += coeff',
          new='        if role == "product":\n            S_minus[i, j] += coeff\n        elif role == "reactant":\n            S_plus[i, j] += coeff'),
     dict(name="left kernel of S instead of S.T", file=ST, expect="O17.1", old="    return _null_space(S.T, rtol=rtol)", new="    return _null_space(S, rtol=rtol)"),
-    dict(name="is_consistent with free variables", file=ST, expect="O17.2", old="        bounds = [(eps, None) for _ in range(n_reactions)]", new="        bounds = [(None, None) for _ in range(n_reactions)]"),
+    dict(name="is_consistent with free variables", file=ST, expect="O17.2", old="        bounds = [(1.0, None) for _ in range(n_reactions)]", new="        bounds = [(None, None) for _ in range(n_reactions)]"),
+    dict(name="revert F-C17b (flux accepted without positivity re-check)", revert_patch="notes/fixes/C17b.patch", expect="O17.3"),
     dict(name="conservation LP maximises", file=ST, expect="O17.2", old="    c = np.ones(k_dim, dtype=float)", new="    c = -np.ones(k_dim, dtype=float)"),
     dict(name="LP witness not re-checked", file=ST, expect="O17.3", old="    if not np.all(m > eps):\n        return None, True\n\n    return m / np.sum(m), True", new="    return m / np.sum(m), True"),
     dict(name="residual check dropped", file=ST, expect="O17.3",
-         old="            if rel_err <= 1e-8:\n                return True\n            else:\n                return False", new="            return True"),
+         old="            if rel_err <= 1e-8 and np.all(v > eps):\n                return True\n            else:\n                return False", new="            if np.all(v > eps):\n                return True\n            else:\n                return False"),
     dict(name="coefficient overwritten instead of accumulated", file=ST, expect="O17.1", old="            S_plus[i, j] += coeff", new="            S_plus[i, j] = coeff"),
     dict(name="rows indexed by the reaction end", file=ST, expect="O17.1", old="        i = species_index[s_node]\n        j = reaction_index[r_node]", new="        i = species_index[r_node]\n        j = reaction_index[s_node]"),
     dict(name="basis scan accepts non-negative vectors", file=ST, expect="O17.3",
@@ -352,5 +370,5 @@ TWINS = [
     dict(name="repaired conservation LP (c = 1^T B, margin 1) is accepted and silences the known finding", file=ST,
          old="    b_ub = -eps * np.ones(m_dim, dtype=float)\n    c = np.ones(k_dim, dtype=float)", new="    b_ub = -1.0 * np.ones(m_dim, dtype=float)\n    c = B.sum(axis=0)"),
     dict(name="S written as negated difference", file=ST, old="    S = S_plus - S_minus", new="    S = -S_minus + S_plus"),
-    dict(name="bounds as a repeated list", file=ST, old="        bounds = [(eps, None) for _ in range(n_reactions)]", new="        bounds = [(eps, None)] * n_reactions"),
+    dict(name="bounds as a repeated list", file=ST, old="        bounds = [(1.0, None) for _ in range(n_reactions)]", new="        bounds = [(1.0, None)] * n_reactions"),
 ]
